@@ -43,6 +43,10 @@ func NewUnixFSHAMTShard(ctx context.Context, substrate dagpb.PBNode, data data.U
 	if err := validateHAMTData(data); err != nil {
 		return nil, err
 	}
+	if !data.FieldData().Exists() && substrate.FieldLinks().Length() > 0 {
+		// only a shard without entries may omit its bitfield
+		return nil, ErrNoDataField
+	}
 	shardCache := make(map[ipld.Link]*_UnixFSHAMTShard, substrate.FieldLinks().Length())
 	bf, err := bitField(data)
 	if err != nil {
